@@ -101,6 +101,13 @@ fn execute(fam: &Family, tape: Tape) -> RunRecord {
 
 fn summarize(fam: &Family, prop: &str, rec: &RunRecord, want_sample: bool) -> Summary {
     let mut violations: Vec<Violation> = (fam.oracle)(rec).into_iter().filter(|v| v.prop == prop).collect();
+    // a response at least two rounds old whose 16-bit sequence the current round has issued
+    // again is indistinguishable from a response to the current probe (`ambiguous_rounds`);
+    // the oracles of C01-C03 skip such rounds themselves, the ground-truth based ones of
+    // these properties are not consulted for such a run
+    if matches!(prop, "C06" | "C08" | "C10" | "C14" | "C19") && !violations.is_empty() && rec.sc.synth.is_none() && !crate::oracle::ambiguous_rounds(rec).is_empty() {
+        violations.retain(|v| v.sig.contains(".panic.") || v.sig.contains("never-published") || v.sig.contains("no-termination"));
+    }
     // a tracer that panics inside the code a property is about breaks that property, whatever
     // else the oracle looks at (the oracles of C02-C04, C07, C09, C14, C16 say so themselves)
     if let crate::run::RunEnd::Panic(p) = &rec.end {
